@@ -643,19 +643,6 @@ func main() {
 		same := func(got geojson.BBox) bool {
 			return sameBBox(got, bb) || (!(len(bb) >= 4 && len(bb)%2 == 0) && len(got) == 0)
 		}
-		// the helpers around the list: Valid = at least 4 numbers and an even count; Bound = first and middle pair (the
-		// zero bound when not valid); NewBBox(bound) = [min, max] and back
-		valid := len(bb) >= 4 && len(bb)%2 == 0
-		var wb orb.Bound
-		if valid {
-			wb = orb.Bound{Min: orb.Point{bb[0], bb[1]}, Max: orb.Point{bb[len(bb)/2], bb[len(bb)/2+1]}}
-		}
-		if bb.Valid() != valid || bb.Bound() != wb {
-			c.Failf("bbox-helpers", "bbox %v: Valid() = %v, Bound() = %v, want %v, %v", bb, bb.Valid(), bb.Bound(), valid, wb)
-		}
-		if nb := geojson.NewBBox(wb); len(nb) != 4 || nb[0] != wb.Min[0] || nb[1] != wb.Min[1] || nb[2] != wb.Max[0] || nb[3] != wb.Max[1] || nb.Bound() != wb {
-			c.Failf("bbox-helpers", "NewBBox(%v) = %v", wb, nb)
-		}
 		desc := fmt.Sprintf("bbox=%v where=%d geometry=%v", bb, where, g)
 		f, fc := mk()
 		switch where {
